@@ -142,6 +142,31 @@ def c15_run(desc):
                 if lis is not None:
                     c.wait(lambda: lis.p.out.count(b"\n") >= 1, 5)
                 kill_now()
+            if desc.get("pattern") == "sibling-fails":
+                # b writes, a flush period passes, b writes again on both streams, and right after that a
+                # exits 1 while b is still running: b is cancelled with output that no periodic flush
+                # has handled yet
+                a_ch, b_ch = g1[0], g1[1]
+                say(b_ch, 0)
+                pause()
+                say(b_ch, 1)
+                c.wait(lambda: False, 0.08)
+                c.release(a_ch, 1)
+                c.wait(lambda: p.done(), 20)
+                hung = not p.done()
+                if hung:
+                    c.kill(p, group=True)
+                    c.wait(lambda: p.done(), 5)
+                for ch in list(c.waiting()):
+                    c.release(ch, 0)
+                c.settle(0.1, 1.0)
+                res = sc.Result(p.code, p.out, p.err)
+                doc = res.json()
+                st = None if doc is None else {"%s:%s" % k: list(v) for k, v in statuses(doc).items()}
+                return {"exit": p.code, "hung": hung, "orphans": 0, "stderr": p.err[:300].decode(errors="replace"),
+                        "failed": None if doc is None else doc.get("failed"), "statuses": st,
+                        "logs": None if doc is None else {"%s|%s|%s" % k: v.decode(errors="replace") for k, v in stored_logs(r, doc).items()},
+                        "listener_saw": None if lis is None else len(lis.p.out)}
             nb = 0
             for ch in g1:
                 say(ch, nb)
@@ -225,6 +250,11 @@ def c15_scenarios(tier):
     # clean SIGTERM variant
     for fate in FATES[1:]:
         out.append({"listener": ["--stdout", "--stderr"], "fate": fate, "term": True})
+    # a member of the first group fails while its sibling is still running and has output pending
+    out.append({"listener": None, "fate": "never", "pattern": "sibling-fails"})
+    for cfg in (["--stdout", "--stderr"], ["--stderr"], ["--stdout", "-t", "a"]):
+        for rep in range(2):
+            out.append({"listener": cfg, "fate": "never", "pattern": "sibling-fails", "rep": rep})
     # long multi-byte target paths
     for fate in ("never", "mid_output"):
         out.append({"listener": None, "fate": fate, "names": "long"})
@@ -353,6 +383,19 @@ def c20_run(desc):
                         c.send(ch, ["out " + burst("stdout", t, cmd, k, ll, st).hex(), "err " + burst("stderr", t, cmd, k, ll, st).hex()])
                         c.wait_acks(ch, 10)
                     c.wait(lambda: False, GAP)
+                if desc.get("sibling_fails") and cmd == cmds[-1]:
+                    # the second member writes once more on both streams and, before any periodic flush,
+                    # the first member exits 1: the sibling is cancelled with output pending
+                    ch = grp[1]
+                    t = os.path.relpath(ch.cwd, r.dir)
+                    c.send(ch, ["out " + burst("stdout", t, cmd, 9).hex(), "err " + burst("stderr", t, cmd, 9).hex()])
+                    c.wait_acks(ch, 10)
+                    c.wait(lambda: False, 0.08)
+                    c.release(grp[0], 1)
+                    c.wait(lambda: p.done(), 15)
+                    for ch2 in list(c.waiting()):
+                        c.release(ch2, 0)
+                    break
                 for ch in grp:
                     c.release(ch, 0)
                 c.wait(lambda: all(ch.state == "gone" for ch in grp) or p.done(), 10)
@@ -365,7 +408,7 @@ def c20_run(desc):
                 viol.append(("run-hung", "run did not exit"))
             c.settle(0.2, 2.0)
             doc = sc.Result(p.code, p.out, p.err).json()
-            if doc is None or p.code != 0:
+            if doc is None or p.code != (1 if desc.get("sibling_fails") else 0):
                 return {"blocked": "run failed: exit %s %s" % (p.code, p.err[:200])}
             stored = stored_logs(r, doc)
 
@@ -443,6 +486,9 @@ def c20_scenarios(tier):
     # both targets with long paths of 2- and 3-byte characters (different ASCII prefix and suffix lengths)
     for s_, t, c in [(["--stdout", "--stderr"], [], []), (["--stdout"], [LONG_A], []), (["--stderr"], [LONG_B], ["build"])]:
         out.append({"streams": s_, "targets": t, "commands": c, "short": True, "names": "long"})
+    # a failing member: its sibling is cancelled while it has output that no periodic flush has handled
+    for s_, t, c in [(["--stdout", "--stderr"], [], []), (["--stderr"], [], ["test"]), (["--stdout"], [B20], [])]:
+        out.append({"streams": s_, "targets": t, "commands": c, "short": True, "sibling_fails": True})
     # held schedules: the first task to flush is held inside the critical section
     n = 6 if tier == "quick" else 24
     for i in range(n):
@@ -471,6 +517,10 @@ def run(prop, tier):
             raise common.EngineError("; ".join(errs[:2]))
         bases = {(d["fate"], d.get("pattern"), d.get("names")): r for d, r in zip(descs, results) if d["listener"] is None}
         for f, b in bases.items():
+            if f[1] == "sibling-fails":
+                if b.get("exit") != 1 or b.get("failed") is not True:
+                    raise common.EngineError("listener-absent baseline of the failing pattern did not fail: %s" % json.dumps(b)[:400])
+                continue
             if b.get("exit") != 0 or b.get("failed") is not False:
                 raise common.EngineError("listener-absent baseline for burst pattern %s is not a clean success: %s" % (f, json.dumps(b)[:400]))
         viol = []
